@@ -24,11 +24,15 @@ func runC11(c *Ctx) {
 	r.Rule("R2-clear-propagates", "Manager.Clear always clears the cookie and returns the store-delete error unchanged up the chain", 9)
 	r.Rule("R3-cookie-store-clear", "cookie store Clear sweeps all presented cookies matching ^QuoteMeta(name)(_\\d+)?$ and deletes each under its presented name", 3)
 	r.Rule("R5-no-resurrection", "a request that waited for the refresh lock writes the session back only after reloading it successfully under the lock, so a session deleted by sign-out in between is not re-created (shared with C12.R2)", 1)
+	r.Rule("R6-stable-domain-order", "the cookie-domain list both setters and deleters choose from is sorted once and never reordered (shared with C18.R5)", 4)
+	r.Rule("R7-relogin-overwrites", "a save over a decodable request ticket reuses that ticket: a re-login overwrites the stored session instead of leaving an orphan sign-out cannot reach (shared with C12.R6)", 2)
 	r.Rule("R4-same-name-opts", "setters and deleters agree on cookie name expression and options", 5)
 
 	runSignOutRule(c, "R1-redirect-after-clear")
 	runManagerClearRule(c, "R2-clear-propagates")
 	c.checkRefreshProtocol("R5-no-resurrection", c.c12Anchors("R5-no-resurrection"))
+	runDomainOrderRule(c, "R6-stable-domain-order")
+	runTicketReuseRule(c, "R7-relogin-overwrites")
 	runC11R3R4(c, "R3-cookie-store-clear", "R4-same-name-opts")
 }
 
